@@ -294,11 +294,14 @@ def gen_getitem(draw):
     for _ in range(draw(st.sampled_from([0, 0, 1, 2]))):
         items.insert(draw(st.integers(0, len(items))), ["n"])
     as_tuple = draw(st.booleans()) or len(items) != 1 or items[0][0] == "t"
-    return {"xs": [X(shp, draw(gen.grid(shp)))], "args": {"key": items, "tuple": as_tuple}}
+    return {"xs": [X(shp, draw(gen.grid(shp)))], "args": {"key": items, "tuple": as_tuple,
+                                                          "form": draw(st.sampled_from(["index", "index", "fn"]))}}
 
 
 def apply_getitem(ts, args):
     key = decode_index(args["key"], args.get("tuple", True))
+    if args.get("form") == "fn":
+        return sg.slice(ts[0], key)          # the functional spelling of x[key]
     return ts[0][key]
 
 
